@@ -11,7 +11,7 @@ from lib import impl
 from lib.core import VERIF, cN, cbool, cbytes, clist, copt, cpair, vL, vN
 
 PROPERTY = "C08"
-GEN: list = []
+GEN: list = ["types", "idiff"]
 RULE = (
     "pairs of in-memory DataIndex objects derived from one random base tree (depth <= 4, names with a "
     "common prefix and a non-ASCII one) by independent perturbations: delete / add / move (same hash -> "
@@ -37,7 +37,7 @@ ASSUMPTIONS = [
     "set iteration order (old_items.keys() | new_items.keys()) is unobservable: outputs are compared as multisets",
 ]
 
-IMPORTS = "From Coq Require Import NArith List.\nFrom DvcData Require Import Model.Trie Model.IndexDiff."
+IMPORTS = "From Coq Require Import NArith List.\nFrom DvcData Require Import Base.PyBase Gen.PyTypes Gen.IDiff Model.Trie Model.IndexDiff."
 
 ADD, MODIFY, RENAME, DELETE, UNCHANGED, UNKNOWN = "add", "modify", "rename", "delete", "unchanged", "unknown"
 TYP_CODE = {ADD: 1, MODIFY: 2, RENAME: 3, DELETE: 4, UNCHANGED: 5, UNKNOWN: 6}
